@@ -267,6 +267,44 @@ def fresh_lookup(chk, prog, cfg):
     chk.floor(f"handler serve sites in the connection loop [{cfg}]", n, 1)
 
 
+NORMALISERS = (r"(to_ascii_lowercase|to_ascii_uppercase|to_lowercase|to_uppercase|make_ascii_lowercase|make_ascii_uppercase|eq_ignore_ascii_case|"
+               r"trim|trim_start|trim_end|trim_matches|trim_start_matches|trim_end_matches|nfc|nfd|nfkc|nfkd|percent_decode|replace|replacen)$")
+
+
+def literal_matching(chk, prog, cfg):
+    """R7: patterns generalise only through `*`: the matcher and the code that feeds it compare characters as they are
+    (no case folding, trimming or other normalisation of pattern or text), so `/Docs` and `/docs` are different routes."""
+    roots = [p for p in prog.bodies if p == "humphrey::krauss::wildcard_match" or p.endswith("route::Route>::route_matches") or p.endswith("::route_matches")]
+    chk.floor(f"matcher bodies [{cfg}]", len(roots), 2)
+    reach = sorted(prog.reach_bodies(roots, extra_edges=lambda bb: [c.path for c in prog.closures_of(bb.path)]))
+    n = 0
+    bad = []
+    for pth in reach:
+        bb = prog.bodies[pth]
+        for blk, t in bb.calls():
+            n += 1
+            if core.call_matches(t, NORMALISERS):
+                bad.append((bb, blk, t))
+        # method references passed as values, e.g. `.map(char::to_ascii_lowercase)`
+        for bi, blk_ in enumerate(bb.blocks):
+            for st in blk_["stmts"]:
+                o = st.get("rv", {}).get("o") if st.get("rv") else None
+                for cand in ([o] if isinstance(o, dict) else []) + (st.get("rv", {}).get("ops") or [] if st.get("rv") else []):
+                    if isinstance(cand, dict) and cand.get("k") == "const" and core.re.search(NORMALISERS, str(cand.get("fn") or cand.get("def") or cand.get("repr") or "").rstrip()):
+                        bad.append((bb, bi, {"callee": str(cand.get("fn") or cand.get("def") or cand.get("repr"))}))
+            t = blk_["term"]
+            if t and t["k"] == "call":
+                for a in t["args"]:
+                    if a.get("k") == "const" and core.re.search(NORMALISERS, str(a.get("fn") or a.get("def") or a.get("repr") or "").rstrip()):
+                        bad.append((bb, bi, {"callee": str(a.get("fn") or a.get("def") or a.get("repr"))}))
+    chk.floor(f"calls examined in the matcher [{cfg}]", n, 10)
+    for bb, blk, t in bad:
+        chk.ob("R7.literal_match", bb.path, f"normalising call {core.short(t['callee'])} in the matcher", False,
+               f"{t['callee']} changes what is compared: a pattern then also matches texts that differ from it other than through `*` (an earlier route / host can shadow the right one)",
+               where=bb.where(blk), cfg=cfg)
+    chk.ob("R7.literal_match", "humphrey::krauss::wildcard_match", "pattern and text characters are compared as they are (no case folding / trimming / decoding)", not bad, "", cfg=cfg)
+
+
 def run(chk):
     chk.explanation = (
         "Static decision of the routing rule's structural clauses on the four lookup functions (get_handler, call_websocket_handler; threaded [A] "
@@ -286,6 +324,7 @@ def run(chk):
         registration(chk, prog, cfg)
         http_no_match(chk, prog, cfg)
         fresh_lookup(chk, prog, cfg)
+        literal_matching(chk, prog, cfg)
     for k in sorted(set(facts["A"]) | set(facts["B"])):
         va, vb = facts["A"].get(k), facts["B"].get(k)
         chk.ob("R.sibling", "routing[A] vs routing[B]", f"{k[0]}: {k[1]}", va == vb, f"threaded: {va}, tokio: {vb}")
